@@ -309,6 +309,7 @@ impl<K: KeyT, V: ValT> MapWorld<K, V> {
         let plan = self.slots[si].plan.clone();
         let mut fc = self.fctx(si, op);
         fc.toggles = true;
+        fc.multi = methods.len() > 1;
         fc.allowed = vtoks.iter().map(|v| (kid, v.0)).collect();
         fc.arg_serials = std::iter::once(ks).chain(vtoks.iter().map(|v| v.1)).chain(k2.iter().copied()).collect();
         self.note_entry_state(si);
